@@ -560,7 +560,9 @@ def run_check(ctx):
     results = {}
     for sub in run.pmap(lambda items: rp.resolve(items, BATCH_TIMEOUT), jobs):
         results.update(sub)
-    suspects = sorted(key for key, (st, _) in results.items() if st != "ok")
+    # isolated lines first, the unresolved remainder of abnormal batches last
+    suspects = sorted((key for key, (st, _) in results.items() if st != "ok"),
+                      key=lambda key: (results[key][0].startswith("unresolved"), key))
     confirmed = {}
     todo = [key for key in suspects if results[key][0] == "diff"][:CONFIRM_CAP]
     for key, r in zip(todo, run.pmap(lambda ck: rp.alone(*ck), todo)):
